@@ -95,6 +95,7 @@ def parseOp : List String → Option Op
   | ["save"] => some .save
   | ["savefail"] => some .saveFail
   | ["load"] => some .load
+  | ["loadfail"] => some .loadFail
   | _ => Option.none
 
 def resWire : Res → String
